@@ -404,13 +404,31 @@ func (c C16) Run(t *tape.Tape, opt core.RunOpt) (res core.Result) {
 	// the literal names their required fields, which therefore have to be there
 	// in the load that brings the literal
 	litInputs := map[string]bool{}
+	allLits := "" // every literal written in the set (defaults and directive uses)
 	for _, f := range frags {
-		if f.spec != nil && f.spec.Kind == "directive" {
+		if f.spec == nil {
+			continue
+		}
+		if f.spec.Kind == "directive" {
 			for _, a := range f.spec.Fields {
 				if a.Name == "o" && a.Type != nil {
 					litInputs[a.Type.Name] = true
 				}
 			}
+		}
+		allLits += strings.Join(f.spec.DirUses, " ") + " "
+		for _, fl := range f.spec.Fields {
+			allLits += fl.Default + " "
+			for _, a := range fl.Args {
+				allLits += a.Default + " "
+			}
+		}
+	}
+	// any input type may be written as a literal (input-object defaults nest):
+	// a field that some literal names has to stay with its type
+	for _, f := range frags {
+		if f.spec != nil && f.spec.Kind == "input" {
+			litInputs[f.name] = true
 		}
 	}
 	// the same custom scalar declared twice (the library takes a repeated scalar
@@ -461,6 +479,48 @@ func (c C16) Run(t *tape.Tape, opt core.RunOpt) (res core.Result) {
 				}
 			}
 		}
+	}
+	// a chain of input types with defaults at every level, and literals that
+	// spell out only the upper levels: what the schema shows for the rest must
+	// not depend on how many loads (validations) follow the literal
+	if !illFormed && t.Bool(1, 5) {
+		depth := 2 + t.Draw(3)
+		pfx := fmt.Sprintf("Zc%d", t.Draw(3))
+		frags = append(frags, &c16Frag{name: pfx + "1", text: fmt.Sprintf("input %s1 {\n  a: Int = %d\n  s: [String] = [\"u\"]\n}\n", pfx, 1+t.Draw(9))})
+		for i := 2; i <= depth; i++ {
+			def := ""
+			if t.Bool(2, 3) {
+				def = " = {}"
+			}
+			frags = append(frags, &c16Frag{name: fmt.Sprintf("%s%d", pfx, i), refs: []string{fmt.Sprintf("%s%d", pfx, i-1)},
+				text: fmt.Sprintf("input %s%d {\n  b: Int = %d\n  n: %s%d%s\n  l: [%s%d] = [{}]\n}\n", pfx, i, 10+i, pfx, i-1, def, pfx, i-1)})
+		}
+		top := fmt.Sprintf("%s%d", pfx, depth)
+		lit := func() string {
+			d := t.Draw(depth)
+			l := "{}"
+			for j := 0; j < d; j++ {
+				switch t.Draw(3) {
+				case 0:
+					l = "{n: " + l + "}"
+				case 1:
+					l = "{l: [" + l + "]}"
+				default:
+					l = "{b: 1, n: " + l + "}"
+				}
+			}
+			return l
+		}
+		dname := "zpol" + pfx
+		ddef := ""
+		if t.Bool(1, 3) {
+			ddef = " = " + lit()
+		}
+		frags = append(frags, &c16Frag{name: "@" + dname, refs: []string{top},
+			text: fmt.Sprintf("directive @%s(p: %s%s) on OBJECT | FIELD_DEFINITION | ARGUMENT_DEFINITION\n", dname, top, ddef)})
+		use := fmt.Sprintf("type %sUse @%s(p: %s) {\n  f: Int @%s\n  g(a: %s = %s @%s(p: %s)): Int\n}\n", pfx, dname, lit(), dname, top, lit(), dname, lit())
+		frags = append(frags, &c16Frag{name: pfx + "Use", refs: []string{top, "@" + dname}, text: use})
+		res.Count("probe_nested_default_chain", 1)
 	}
 	defOf := map[string]int{}
 	for i, f := range frags {
@@ -537,11 +597,11 @@ func (c C16) Run(t *tape.Tape, opt core.RunOpt) (res core.Result) {
 			for i, f := range frags {
 				if f.spec != nil && t.Bool(1, 2) {
 					sp := f.spec
-					if litInputs[sp.Name] {
+					if sp.Kind == "input" && litInputs[sp.Name] {
 						// only optional trailing fields may move: the literals written
 						// for this input name its required fields
 						n := len(sp.Fields)
-						for n > 0 && (!strings.HasSuffix(sp.Fields[n-1].Type.String(), "!") || sp.Fields[n-1].Default != "") {
+						for n > 0 && (!strings.HasSuffix(sp.Fields[n-1].Type.String(), "!") || sp.Fields[n-1].Default != "") && !strings.Contains(allLits, sp.Fields[n-1].Name+":") {
 							n--
 						}
 						if n == len(sp.Fields) || n == 0 {
@@ -589,7 +649,7 @@ func (c C16) Run(t *tape.Tape, opt core.RunOpt) (res core.Result) {
 				a.loads[load[i]] = append(a.loads[load[i]], texts[i])
 				if extra[i] != "" {
 					el := load[i] + t.Draw(nl-load[i])
-					if sp := frags[i].spec; sp != nil && (sp.Kind == "interface" || len(sp.Implements) > 0 || (litInputs[sp.Name] && !optMoved[sp.Name])) {
+					if sp := frags[i].spec; sp != nil && (sp.Kind == "interface" || len(sp.Implements) > 0 || (sp.Kind == "input" && litInputs[sp.Name] && !optMoved[sp.Name])) {
 						// every load has to leave a well-formed schema behind: members
 						// that interface conformance depends on stay in the same load
 						el = load[i]
